@@ -1388,7 +1388,9 @@ func meanUnnormalisedVarianceSumWeights(x, weights []float64) (mean, unnormalise
 			compensation += d
 		}
 		unnormalisedVariance = (ss - compensation*compensation/float64(len(x)))
-		return mean, unnormalisedVariance, float64(len(x))
+		// The correction can exceed ss by a rounding error when all
+		// of the data are (nearly) equal to the mean.
+		return mean, math.Max(unnormalisedVariance, 0), float64(len(x))
 	}
 
 	for i, v := range x {
@@ -1400,5 +1402,5 @@ func meanUnnormalisedVarianceSumWeights(x, weights []float64) (mean, unnormalise
 		sumWeights += w
 	}
 	unnormalisedVariance = (ss - compensation*compensation/sumWeights)
-	return mean, unnormalisedVariance, sumWeights
+	return mean, math.Max(unnormalisedVariance, 0), sumWeights
 }
